@@ -20,7 +20,7 @@ import math as _math
 import ufo2ft.fontInfoData as _fid
 import z3
 from fontTools.misc.fixedTools import otRound as _otRound
-from pyvc.api import BOOL, CLASSES, CONTRACTS, INT, REAL, STR, Const, List, Loop, Opaque, Opt, Ref, Runtime, Set, cls, contract, lemma, specfn, trusted
+from pyvc.api import BOOL, CLASSES, CONTRACTS, INT, REAL, STR, Const, Dict, List, Loop, Opaque, Opt, Ref, Runtime, Set, Tuple, cls, contract, lemma, specfn, trusted
 from pyvc.core import PYOBJ, Unsupported, Val, lift
 from pyvc.ops import is_const
 from pyvc.symex import FuncRef
@@ -422,6 +422,30 @@ def ps_char_ok(ch, allowSpaces):
     return len(ch) == 1 and "!" <= ch and ch <= "~" and ch not in "[](){}<>/%"
 
 
+_PS_OK = {chr(i) for i in range(33, 127)} - set("[](){}<>/%")
+
+
+def ps_norm_char(c, allow_spaces):
+    """Independent reading of the documented normalisation of ONE character: acceptable printable ASCII is kept; a
+    space is kept only where spaces are allowed; any other ASCII character is dropped; a non-ASCII character is
+    compatibility-decomposed (NFKD), what is still not ASCII becomes '?', and only acceptable characters survive."""
+    import unicodedata
+
+    okset = _PS_OK | ({" "} if allow_spaces else set())
+    if c in _PS_OK:
+        return c
+    if ord(c) < 128:
+        return c if c in okset else ""
+    d = unicodedata.normalize("NFKD", c)
+    return "".join(y for y in (x if ord(x) < 128 else "?" for x in d) if y in okset)
+
+
+@specfn(STR, opaque=True, s=STR, allowSpaces=BOOL)
+def ps_norm(s, allowSpaces):
+    """the documented normalisation of a string: the concatenation of the normalised characters (opaque in the logic)"""
+    return "".join(ps_norm_char(c, allowSpaces) for c in s)
+
+
 _NSP = contract(
     f"{MOD}:normalizeStringForPostscript",
     props=[],  # NOT discharged by pyvc (str.encode/.decode, unicodedata are outside the subset): discharged by
@@ -430,7 +454,12 @@ _NSP = contract(
     # obligations C16.normalizeStringForPostscript.*).  Callers below use it as a callee contract.
     params={"s": STR, "allowSpaces": BOOL},
     returns=STR,
-    ensures={"chars": "all(ps_char_ok(result[i], allowSpaces) for i in range(len(result)))"},
+    ensures={
+        "chars": "all(ps_char_ok(result[i], allowSpaces) for i in range(len(result)))",
+        # the WHOLE result: equal to the independent reading ps_norm (enumeration: f(c) == ps_norm_char(c) for every code
+        # point; both sides are concatenations of per-character results — f by the AST shape check, ps_norm by definition)
+        "function": "result == ps_norm(s, allowSpaces)",
+    },
     notes="discharged by enumeration in vcheck/hooks/c16.py",
     # replay of a failing code point found by the enumeration (./check replay <file>)
     runtime=Runtime(lambda rng, n: [], lambda d: {"s": d["s"], "allowSpaces": d["allowSpaces"]}),
@@ -444,8 +473,9 @@ contract(
     ensures={
         "chars": "all(ps_char_ok(result[i], False) for i in range(len(result)))",
         "no-space": "all(result[i] != ' ' for i in range(len(result)))",
+        "function": "result == ps_norm(name, False)",
     },
-    canaries={"empty": "result == ''"},
+    canaries={"empty": "result == ''", "spaces-kept": "result == ps_norm(name, True)"},
     runtime=Runtime(
         lambda rng, n: (["", " ", "A B", "a[b]c", "Ä ö", " x", "（全角）", "a/b%c", "\x00\x1f\x7f", "ﬁ ﬂ", "½", "𝔘𝔫𝔦"] + ["".join(chr(rng.choice([rng.randint(0, 0x2FF), rng.randint(0x2000, 0x33FF), rng.randint(0xFF00, 0xFFEF), rng.randint(32, 126)])) for _ in range(rng.randint(0, 6))) for _ in range(n)])[:n],
         lambda d: {"name": d},
@@ -833,6 +863,141 @@ contract(
     },
     canaries={"weight-400": f"'OS/2' in self.tables and {_OS2}.usWeightClass == 400"},
     locals={"selection": List(INT), "unicodes": List(INT)},
+    globals=G,
+    runtime=Runtime(_table_info_cases(), _table_build(), call=lambda fn, a: fn(a["self"])),
+)
+
+
+# ---- name ---------------------------------------------------------------------------------------------------------
+# The name table object as the contracts see it: `recs` = (nameID, platformID, platEncID, langID) -> string.
+NKEY = Tuple(INT, INT, INT, INT)
+_NAME_IDS = [0, 1, 2, 3, 4, 5, 6, 7, 8, 9, 10, 11, 12, 13, 14, 16, 17, 18, 19, 21, 22]
+
+
+def _name_key(args, node):
+    return Val(NKEY, NKEY.sort().mk(*[lift(a, INT) for a in args]))
+
+
+def _name_getName(ex, st, self, args, kwargs, node):
+    """fontTools table__n_a_m_e.getName(nameID, platformID, platEncID, langID): the matching record or None.  ufo2ft
+    only tests the result's truthiness (a NameRecord defines neither __bool__ nor __len__): modelled as the Bool
+    'a record with that key exists'."""
+    if len(args) != 4 or kwargs:
+        raise Unsupported("name.getName: expected (nameID, platformID, platEncID, langID)", node)
+    recs = ex.read_field(st, self, "recs")
+    return _contains(ex, st, recs, _name_key(args, node), node)
+
+
+def _contains(ex, st, d, k, node):
+    s = d.ty.sort()
+    return Val(BOOL, z3.Select(s.dom(lift(d)), lift(k, d.ty.k)))
+
+
+def _name_setName(ex, st, self, args, kwargs, node):
+    """fontTools table__n_a_m_e.setName(string, nameID, platformID, platEncID, langID): the record with that key gets the
+    string (replaced if it exists, appended otherwise)"""
+    from pyvc import models
+
+    if len(args) != 5 or kwargs:
+        raise Unsupported("name.setName: expected (string, nameID, platformID, platEncID, langID)", node)
+    s = ex.deopt(args[0], st, node)
+    if s.ty != STR:
+        raise Unsupported(f"name.setName with a {s.ty} string", node)
+    recs = ex.read_field(st, self, "recs")
+    ex.write_field(st, self, "recs", models.set_item(ex, st, recs, _name_key(args[1:], node), s, node), node)
+    return Val.const(None)
+
+
+def _native_recs(tbl):
+    return {(n.nameID, n.platformID, n.platEncID, n.langID): n.toUnicode() for n in tbl.names}
+
+
+_NAMEC = CLASSES[lib.table_class("name")]
+_NAMEC.fields.setdefault("recs", Dict(NKEY, STR))
+_NAMEC.methods.setdefault("getName", _name_getName)
+_NAMEC.methods.setdefault("setName", _name_setName)
+_NAMEC.views.setdefault("recs", _native_recs)
+
+
+def _ufo_namerec_getitem(ex, st, self, idx, node):
+    if not is_const(idx) or idx.py not in ("nameID", "platformID", "encodingID", "languageID", "string"):
+        raise Unsupported("UFO name record subscript with an unknown key", node)
+    return ex.read_field(st, self, idx.py)
+
+
+cls("UfoNameRecord", fields={"nameID": INT, "platformID": INT, "encodingID": INT, "languageID": INT, "string": STR}, getitem=_ufo_namerec_getitem,
+    notes="an entry of info.openTypeNameRecords: dict with keys nameID, platformID, encodingID, languageID (ints) and string (UFO3 typing, assumed)")
+lib.INFO_ATTR_TYPES["openTypeNameRecords"] = List(Ref("UfoNameRecord"))
+
+
+def _newTable_c16(ex, st, args, kwargs, node):
+    """newTable(tag): a fresh table object; a fresh 'name' table holds no records"""
+    tag = lib._need_tag(args[0], node)
+    o = ex.new_object(st, lib.table_class(tag))
+    if tag == "name":
+        ex.write_field(st, o, "recs", Val.const({}), node)
+    return o
+
+
+def _ord(ex, st, args, kwargs, node):
+    """ord(c) of a one-character string: its code point (SMT-LIB str.to_code)"""
+    (c,) = args
+    if is_const(c):
+        return Val.const(ord(c.py))
+    return Val(INT, z3.StrToCode(lift(c, STR)))
+
+
+class _TableMap:
+    """run-time view of a TTFont for clauses: font[tag] is the real table seen through its class vocabulary"""
+
+    def __init__(self, otf):
+        self._otf = otf
+
+    def __getitem__(self, tag):
+        from pyvc.rt import Proxy
+
+        return Proxy(self._otf[tag], CLASSES[lib.table_class(tag)])
+
+    def __contains__(self, tag):
+        return tag in self._otf
+
+    def get(self, tag, default=None):
+        return self[tag] if tag in self._otf else default
+
+
+cls(
+    "OutlineCompilerN",
+    fields={"ufo": Ref("Font"), "otf": Ref("TTFont"), "tables": Set(STR)},
+    views={"otf": lambda o: _TableMap(o.otf)},
+    repo="ufo2ft.outlineCompiler:BaseOutlineCompiler",
+    notes="BaseOutlineCompiler instance as setupTable_name sees it (run-time view: tables through their class vocabulary)",
+)
+
+_NAME_MODELS = {"fontTools.ttLib.ttFont.newTable": _newTable_c16, "fontTools.ttLib.newTable": _newTable_c16, "builtins.ord": _ord}
+
+contract(
+    "ufo2ft.outlineCompiler:_isNonBMP",
+    props=P,
+    params={"s": STR},
+    returns=BOOL,
+    ensures={"iff": "result == any(ord(s[i]) > 65535 for i in range(len(s)))"},
+    canaries={"never": "not result"},
+    loops={"for c in s": Loop(index="i", invariants={"none-yet": "all(ord(s[a]) <= 65535 for a in range(i))"})},
+    models={"builtins.ord": _ord},
+    runtime=Runtime(lambda rng, n: ["", "a", "\U0001d518", "ab\U0001f600c", "￿", "\U00010000"] + ["".join(chr(rng.choice([rng.randint(32, 0x2FF), rng.randint(0xFF00, 0x10100), rng.randint(0x1F000, 0x1F6FF)])) for _ in range(rng.randint(0, 5))) for _ in range(n)], lambda d: {"s": d}),
+)
+
+_NAME = "self.otf['name']"
+contract(
+    "ufo2ft.outlineCompiler:BaseOutlineCompiler.setupTable_name",
+    name="c16",
+    props=P,
+    params={"self": Ref("OutlineCompilerN")},
+    ensures={
+        "not-requested": "implies('name' not in self.tables, self.otf.get('name') == old(self.otf.get('name')))",
+    },
+    canaries={"empty": f"'name' in self.tables and len({_NAME}.recs) == 0"},
+    models=_NAME_MODELS,
     globals=G,
     runtime=Runtime(_table_info_cases(), _table_build(), call=lambda fn, a: fn(a["self"])),
 )
